@@ -45,10 +45,11 @@ Definition zip_file (name : str) (pm : N) (d : str) : list entry :=
   [ {| e_name := name; e_kind := KFile; e_perm := pm; e_data := d |} ].
 
 (** What extraction under [umask] makes of a tree node: directories are
-    created by [mkdir] (subject to the umask), files are [chmod]ed exactly. *)
+    created by [mkdir] (permission and sticky bits, subject to the umask),
+    files are [chmod]ed exactly (all of 07777). *)
 Definition under_umask (um : N) (n : node) : node :=
   match n with
-  | NDir pm => NDir (N.ldiff pm um)
+  | NDir pm => NDir (N.ldiff (N.land pm perm_dir_mask) um)
   | NFile pm d => NFile (N.land pm perm_mask) d
   end.
 
